@@ -27,7 +27,7 @@ func init() {
 		ID: "C19",
 		Rule: "One case = one API history: CreateEmptyInit; 1..8 x AddEmptyTrack(timescale in {1,1000,48000,90000,2^32-1}, media type in the 24 listed values " +
 			"(video audio subtitle subtitles stpp text wvtt meta clcp, custom 4-char handler types hint/auxv/tmcd/abcd and ID32/MPsm/m7sm/Ab1d/3gpp/s-1_/'a b '/TMCD, raw handler names vide/soun/subt) " +
-			"or a random custom four-character type over letters of both cases, digits and punctuation (never a case variant of a named type); language in 7 tags incl. 2-letter, BCP-47 and a 35-char tag); " +
+			"or a random custom four-character type over letters of both cases, digits and punctuation (never a case variant of a named type); language in 7 tags incl. 2-letter, BCP-47 and a 35-char tag, plus a deterministic tail of every media type x four 3-character tags that are not three lower-case letters: ENG, sWe, a1b, e-n); " +
 			"per track the matching Set{AVC,HEVC,AAC,AC3,EC3,Wvtt,Stpp}Descriptor with parameter sets from the independent serializer ref/spsdim (sizes, cropping, chroma format, bit depth, profile/level, scaling lists, sub-layers varied; " +
 			"about a third of the video tracks get a list of 2..4 SPS with different ids: a copy with another level and/or independently drawn SPS of other picture size/profile/level, HEVC with up to 3 VPS) " +
 			"or harvested from the repository's test streams (a third of those with the first SPS of a second stream appended); optionally a call that must be rejected first, unsupported media type probes, and a resume of the history on a decoded copy (decoded by any of the three ways below). " +
@@ -54,10 +54,11 @@ func init() {
 			return nil
 		},
 		NumCases: func(env *runner.Env) int {
+			tailStart = len(grid) + 40000
 			if env.Tier == "thorough" {
-				return len(grid) + 400000
+				tailStart = len(grid) + 400000
 			}
-			return len(grid) + 40000
+			return tailStart + len(tailGrid)
 		},
 		Run: run,
 		Finalize: func(a *runner.Agg) {
